@@ -633,6 +633,19 @@ Definition named (d : value) (e : verr) (key : str) : Prop :=
     | None => getitem o (PKey K_dtype) = Ok (VStr key)
     end.
 
+(* the record create_message reads line / column from: a repeatable keyword (or repeated POINTS) has a
+   LIST of records, one per occurrence; the occurrence the error path names is used *)
+Definition pick_record (key : str) (path : list pelem) (pd : value) : res value :=
+  match pd with
+  | VList l =>
+      let occ := match occurrence_after key path with Some i => N.to_nat i | None => O end in
+      match nth_error l occ with
+      | Some r => Ok r
+      | None => match last_opt_v l with Some r => Ok r | None => Err PyIndexError end
+      end
+  | _ => Ok pd
+  end.
+
 (* the tail of create_message, once the dictionary and the key are known *)
 Definition finish_message (e : verr) (o : value) (key : str) : res value :=
   let path := epath e in
@@ -648,6 +661,7 @@ Definition finish_message (e : verr) (o : value) (key : str) : res value :=
                 if is_nil path then Ok posd
                 else do has <- contains posd key;
                      if has then getitem posd (PKey key) else Ok posd);
+    do pd <- pick_record key path pd;
     do line <- dict_get pd (Str "line");
     do column <- dict_get pd (Str "column");
     Ok (VDict DPlain (base ++ [(Str "line", line); (Str "column", column)]))
@@ -664,7 +678,8 @@ Proof.
   destruct hp; [|injection H as <-; cbn; auto].
   destruct (if is_nil (epath e) then Ok VNone else dict_get o key) as [child|]; [|discriminate]. cbn [bind] in H.
   destruct (if is_dict child then contains child K_dposition else Ok false) as [cp|]; [|discriminate]. cbn [bind] in H.
-  match type of H with (do pd <- ?X; _) = _ => destruct X as [pd|]; [|discriminate] end. cbn [bind] in H.
+  match type of H with (do pd <- ?X; _) = _ => destruct X as [pd0|]; [|discriminate] end. cbn [bind] in H.
+  destruct (pick_record key (epath e) pd0) as [pd|]; [|discriminate]. cbn [bind] in H.
   destruct (dict_get pd (Str "line")) as [ln|]; [|discriminate]. cbn [bind] in H.
   destruct (dict_get pd (Str "column")) as [cl|]; [|discriminate]. cbn [bind] in H.
   injection H as <-. cbn. auto.
@@ -680,7 +695,7 @@ Lemma create_message_target d e :
             match kv with VStr key => finish_message e (fst t) key | _ => Err PyAttributeError end
   end.
 Proof.
-  unfold create_message, target, finish_message.
+  unfold create_message, target, finish_message, pick_record.
   destruct (epath e) as [|p0 ps] eqn:Ep.
   - cbn [bind fst snd]. destruct (getitem d (PKey K_dtype)) as [kv|]; reflexivity.
   - destruct (last (p0 :: ps) (PIdx 0)) as [k|i].
